@@ -186,6 +186,11 @@ class Rewriter:
                     self.bump("R7")
                     return text[:t.start] + text[toks[e].end:]
                 continue
+            if t.kind in ("str", "string") and n + 4 < len(sidx) and toks[sidx[n + 1]].text == "." and toks[sidx[n + 2]].text == "to_owned" \
+                    and toks[sidx[n + 3]].text == "(" and toks[sidx[n + 4]].text == ")":
+                # R17: "literal".to_owned() as an error message
+                self.bump("R17")
+                return text[:t.start] + "verif_opaque_msg()" + text[toks[sidx[n + 4]].end:]
             if t.kind != "ident" or n + 2 >= len(sidx):
                 continue
             b, o = toks[sidx[n + 1]], toks[sidx[n + 2]]
@@ -210,6 +215,10 @@ class Rewriter:
             if name in LOG_MACROS:
                 self.bump("R1")
                 return text[:start] + "()" + text[end:]
+            if name == "format":
+                # R17: the text of an error message is not modelled (error payloads are opaque)
+                self.bump("R17")
+                return text[:start] + "verif_opaque_msg()" + text[end:]
             if name == "fatal":
                 self.bump("R2")
                 fn = "verif_fatal()" if self.fatal_mode == "P" else "verif_abort()"
